@@ -96,6 +96,9 @@ func H_c04(p []int) {
 		wf, ls := wfls([]byte(r.out))
 		vAssert(wf, "C01/wf")
 		vAssert(ls, "C03/lineSafe")
+		if vProp("C03") {
+			vAssert(linesWF([]byte(r.out)), "C03/each-line-wf")
+		}
 	}
 	vAssert(!r.panicked || f.panicked, "C11/no-panic-unless-fmt-panics")
 	vCover(hasMarker([]byte(s)), "marker-in-leaf")
@@ -119,6 +122,9 @@ func H_c04p(p []int) {
 		wf, ls := wfls([]byte(r.out))
 		vAssert(wf, "C01/wf")
 		vAssert(ls, "C03/lineSafe")
+		if vProp("C03") {
+			vAssert(linesWF([]byte(r.out)), "C03/each-line-wf")
+		}
 	}
 	vAssert(!r.panicked || f.panicked, "C11/no-panic-unless-fmt-panics")
 }
@@ -147,6 +153,9 @@ func H_c04m(p []int) {
 		wf, ls := wfls([]byte(r.out))
 		vAssert(wf, "C01/wf")
 		vAssert(ls, "C03/lineSafe")
+		if vProp("C03") {
+			vAssert(linesWF([]byte(r.out)), "C03/each-line-wf")
+		}
 	}
 	vAssert(!r.panicked || f.panicked, "C11/no-panic-unless-fmt-panics")
 }
